@@ -2,6 +2,8 @@ import GeffModel.Proto
 import GeffModel.ValidateData
 import GeffModel.Lineage
 import GeffModel.Tracklet
+import GeffModel.EllipsoidProto
+import GeffModel.NpPrimProto
 open Lean Geff Geff.Proto Geff.Validate
 
 def pairsJson (l : List (Int × Int)) : Json :=
@@ -36,6 +38,8 @@ def callOfName (s : String) : Except String Call :=
 
 def handle (j : Json) : Except String Json := do
   let op ← (← j.getObjVal? "op").getStr?
+  -- numpy primitive library and the GENERATED validators (`Gen.ValidateGraph`, translator T11): ops `np_*`, `gen_*`
+  if let some r := Geff.NpPrim.handle op j then return (← r)
   match op with
   | "graph" =>
     let ids ← getIntList (← j.getObjVal? "ids")
@@ -71,6 +75,7 @@ def handle (j : Json) : Except String Json := do
     let sym ← getBoolList (← j.getObjVal? "sym")
     let pd ← getBoolList (← j.getObjVal? "pd")
     return outcomeJson (validateEllipsoid axes shape sym pd (← getMissing j))
+  | "ellipsoid_exact" => Geff.Validate.EllipsoidProto.handle j   -- exact symmetric / positive-definite stage
   | "lineage_masked" =>
     -- validate_data(lineage=True): `_nodes_with_id` then `validate_lineages` (int64 cast first)
     let nodes ← getIntList (← j.getObjVal? "nodes")
